@@ -10,6 +10,7 @@ negates the field (both from the Biot–Savart integral representation, Lemmas/S
    oracle checks them on the real code. -/
 -/
 import MagpyVerif.Lemmas.KernReal
+import MagpyVerif.Lemmas.KernAlgebra
 import MagpyVerif.Lemmas.SegmentBS
 namespace MagpyVerif.C13
 open MagpyVerif MagpyVerif.Kern
@@ -34,6 +35,44 @@ theorem mesh_H_is_sum_of_sheets (inside : Bool) (pol sheets : V3 ℝ) :
     wrapH .H inside pol sheets = vd sheets mu0R ∧
     wrapH .B inside pol sheets = sheets + (if inside then pol else zero3) := ⟨rfl, rfl⟩
 
+
+/-- `point_inside` of the Tetrahedron gives the same answer for either order of the last two
+vertices (the barycentric coordinates `(λ1, λ2, λ3)` become `(λ1, λ3, λ2)`): the body is the same
+set however its vertices are listed -/
+theorem tetraInside_swap_invariant (v0 v1 v2 v3 x : V3 ℝ) :
+    tetraInside v0 v1 v3 v2 x = tetraInside v0 v1 v2 v3 x :=
+  tetraInside_swap mu0R v0 v1 v2 v3 x
+
+/-- hence the inside set used by the B branch of `BHJM_magnet_tetrahedron` (after
+`check_chirality`) is the inside set used by its J and M branches (vertices as given) -/
+theorem tetraInside_after_chirality (v0 v1 v2 v3 x : V3 ℝ) :
+    tetraInside (tetraChirality v0 v1 v2 v3).1 (tetraChirality v0 v1 v2 v3).2.1
+      (tetraChirality v0 v1 v2 v3).2.2.1 (tetraChirality v0 v1 v2 v3).2.2.2 x = tetraInside v0 v1 v2 v3 x :=
+  tetraInside_chirality mu0R v0 v1 v2 v3 x
+
+/-- C13 (Tetrahedron): `BHJM_magnet_tetrahedron` **is** the `wrapH` dispatch applied to the sum
+of the `triangle_Bfield`s of its four faces `(0,2,1), (0,1,3), (1,2,3), (0,3,2)` of the
+chirality-fixed vertices, with the barycentric inside test of the vertices as given — for all four
+outputs.  (For H the code divides each sheet by μ₀ before summing; for B it tests inside on the
+fixed vertices: both rewritten here.)  So a Tetrahedron and the closed set of its four Triangle
+sheets have the same H everywhere, and B differs by the polarization inside. -/
+theorem tetra_is_wrapH_of_four_sheets (f : Field) (v0 v1 v2 v3 pol x : V3 ℝ) :
+    bhjmTetra f v0 v1 v2 v3 pol x =
+      wrapH f (tetraInside v0 v1 v2 v3 x) pol
+        (triangleB (tetraChirality v0 v1 v2 v3).1 (tetraChirality v0 v1 v2 v3).2.2.1 (tetraChirality v0 v1 v2 v3).2.1 pol x +
+          triangleB (tetraChirality v0 v1 v2 v3).1 (tetraChirality v0 v1 v2 v3).2.1 (tetraChirality v0 v1 v2 v3).2.2.2 pol x +
+          triangleB (tetraChirality v0 v1 v2 v3).2.1 (tetraChirality v0 v1 v2 v3).2.2.1 (tetraChirality v0 v1 v2 v3).2.2.2 pol x +
+          triangleB (tetraChirality v0 v1 v2 v3).1 (tetraChirality v0 v1 v2 v3).2.2.2 (tetraChirality v0 v1 v2 v3).2.2.1 pol x) :=
+  tetra_wrapH' mu0R f v0 v1 v2 v3 pol x
+
+-- non-vacuity: a left-handed vertex order (the swap is performed) and an inside observer
+example : tetraChirality (⟨0, 0, 0⟩ : V3 ℝ) ⟨1, 0, 0⟩ ⟨0, 0, 1⟩ ⟨0, 1, 0⟩ =
+      (⟨0, 0, 0⟩, ⟨1, 0, 0⟩, ⟨0, 1, 0⟩, ⟨0, 0, 1⟩) ∧
+    tetraInside (⟨0, 0, 0⟩ : V3 ℝ) ⟨1, 0, 0⟩ ⟨0, 0, 1⟩ ⟨0, 1, 0⟩ ⟨1 / 4, 1 / 4, 1 / 4⟩ = true := by
+  constructor
+  · simp [tetraChirality, det3, n]
+  · simp [tetraInside, det3, n]
+    norm_num
 
 /-- C13 (Polyline): subdividing a straight segment p1→p2 at the collinear point
 `p3 = p1 + τ (p2 − p1)` (any τ ≠ 0, 1 — for τ outside [0,1] the second piece runs backwards)
